@@ -124,7 +124,7 @@ class C04(Check):
     id = "C04"
     level = "model_checking"
     rule = ("(a) header blocks of every size L-8..L+8 and 10L for max_header_size L=128, alone and after a "
-            "previous request; (b) max_body_size L=16, chunk_size 4: Content-Length bodies of L-1, L, L+1, 100L; "
+            "previous request; (b) max_body_size L=16 (and L=0 with bodies of 0, 1, 5 bytes), chunk_size 4: Content-Length bodies of L-1, L, L+1, 100L; "
             "chunked bodies = all compositions of totals {L-1, L, L+1, 2L} into <= 3 chunks; streaming and "
             "buffered handlers; per-request override {L/2, 2L} set in prepare(); (c) L=300 with "
             "decompress_request: gzip bodies inflating to L-1, L, L+1, 3L, 100L, also with overrides {L/2, 2L, 200L}; "
@@ -161,6 +161,13 @@ class C04(Check):
                 out.append(("chunked", "/s", ov, n, (n,)))
                 if n > 3:
                     out.append(("chunked", "/s", ov, n, (1, n - 2, 1)))
+        for path in ("/s", "/b"):          # a configured limit of 0 is a limit (no body at all), not "unset"
+            for n in (0, 1, 5):
+                out.append(("cl@0", path, None, n, None))
+                if n:
+                    out.append(("chunked@0", path, None, n, (n,)))
+        for n in (0, 1):
+            out.append(("cl", "/s", 0, n, None))
         G = 300
         for n in (G - 1, G, G + 1, 3 * G, 100 * G):
             out.append(("gzip", "/s", None, n, None))
@@ -224,11 +231,11 @@ class C04(Check):
                 limit = ov if ov is not None else L
                 must = "accept" if (n <= limit and len(wire) <= limit) else "refuse"
             else:
-                L = 16
+                L = 0 if kind.endswith("@0") else 16
                 kw = dict(max_body_size=L, chunk_size=4)
                 plain = pattern(n)
                 wire = plain
-                data = body_request(path, "cl" if kind == "cl" else "chunked", wire, ov, chunks=comp)
+                data = body_request(path, "cl" if kind.startswith("cl") else "chunked", wire, ov, chunks=comp)
                 limit = ov if ov is not None else L
                 must = "accept" if n <= limit else "refuse"
 
